@@ -62,6 +62,39 @@ CD = """		low := strings.ToLower(f.Name)
 """
 OL = """	return strings.TrimSpace(strings.Replace(s, "\\n", " ", -1))"""
 ENVI = ["EnvWithGOOS", "EnvWithGOOS/Constraints"]
+
+EX1 = """	sort.Strings(hashes)
+"""
+EX2 = """	hashes = append(hashes, fmt.Sprintf("%x", sha1.Sum([]byte(mageMainfileTplString))))
+"""
+EX3 = """	hash := sha1.Sum([]byte(strings.Join(hashes, "") + magicRebuildKey + ver))
+"""
+SHX = """	if e, ok := err.(exitStatus); ok {
+		return e.ExitStatus()
+	}
+	if e, ok := err.(*exec.ExitError); ok {
+		if ex, ok := e.Sys().(exitStatus); ok {
+			return ex.ExitStatus()
+		}
+	}
+	return 1
+"""
+CR = """	ee, ok := err.(*exec.ExitError)
+	if ok {
+		return ee.Exited()
+	}
+	return false
+"""
+MGX = """	exit, ok := err.(exitStatus)
+	if !ok {
+		return 1
+	}
+	return exit.ExitStatus()
+"""
+SY = """	if syns := strings.Split(synopsis, " "); strings.EqualFold(f.Name, syns[0]) {
+		return strings.Join(syns[1:], " ")
+	}
+"""
 # (id, kind S=semantic H=harmless, item names, file, old, new, expected coverage value prefix)
 MUTANTS = [
     ("joinArgs-S1 b before a", "S", ["joinArgs"], "sh/cmd.go", JA, "\tout := make([]string, 0, len(a)+len(b))\n\tout = append(out, b...)\n\treturn append(out, a...)\n", "differs"),
@@ -109,7 +142,7 @@ MUTANTS = [
     ("joinEnv-S1 value=name", "S", ["SplitEnv"], "internal/run.go", JE, JE.replace('k+"="+v', 'v+"="+k'), "differs"),
     ("joinEnv-S2 empty values dropped", "S", ["SplitEnv", "EnvWithGOOS"], "internal/run.go", JE, JE.replace("\t\tvals = append", "\t\tif v == \"\" {\n\t\t\tcontinue\n\t\t}\n\t\tvals = append"), "differs"),
     ("joinEnv-H1 Sprintf", "H", ["SplitEnv", "EnvWithGOOS"], "internal/run.go", JE, JE.replace('k+"="+v', 'fmt.Sprintf("%s=%s", k, v)'), "proved"),
-    ("joinEnv-H2 iterates in sorted key order (sort.Strings: outside the subset)", "H", ["SplitEnv"], "internal/run.go", JE, "\tkeys := make([]string, 0, len(env))\n\tfor k := range env {\n\t\tkeys = append(keys, k)\n\t}\n\tsort.Strings(keys)\n\tfor _, k := range keys {\n\t\tvals = append(vals, k+\"=\"+env[k])\n\t}\n", "untranslatable", [('\t"runtime"\n', '\t"runtime"\n\t"sort"\n')]),
+    ("joinEnv-H2 iterates in sorted key order (now inside the subset: the equality proof fails, the multiset comparison finds no difference)", "H", ["SplitEnv"], "internal/run.go", JE, "\tkeys := make([]string, 0, len(env))\n\tfor k := range env {\n\t\tkeys = append(keys, k)\n\t}\n\tsort.Strings(keys)\n\tfor _, k := range keys {\n\t\tvals = append(vals, k+\"=\"+env[k])\n\t}\n", "unproved-no-diff", [('\t"runtime"\n', '\t"runtime"\n\t"sort"\n')]),
     ("EnvWithGOOS-S1 GOOS argument ignored", "S", ENVI, "internal/run.go", GO, GO.replace('env["GOOS"] = goos', 'env["GOOS"] = runtime.GOOS'), "differs"),
     ("EnvWithGOOS-S2 GOOS left to the caller's environment when no argument", "S", ENVI, "internal/run.go", GO, "\tif goos != \"\" {\n\t\tenv[\"GOOS\"] = goos\n\t}\n", "differs"),
     ("EnvWithGOOS-S3 EnvWithCurrentGOOS forgets GOARCH", "S", ENVI, "internal/run.go", "\tvals[\"GOARCH\"] = runtime.GOARCH\n", "", "differs"),
@@ -123,6 +156,29 @@ MUTANTS = [
     ("toOneLine-S2 newlines removed, not replaced", "S", ["toOneLine"], "parse/parse.go", OL, '\treturn strings.TrimSpace(strings.Replace(s, "\\n", "", -1))', "differs"),
     ("toOneLine-H1 ReplaceAll, local", "H", ["toOneLine"], "parse/parse.go", OL, '\tflat := strings.ReplaceAll(s, "\\n", " ")\n\treturn strings.TrimSpace(flat)', "proved"),
     ("Functions.Less-H1 locals, flipped", "H", ["Functions.Less"], "parse/parse.go", "return s[i].TargetName() < s[j].TargetName()", "x, y := s[i], s[j]\n\treturn y.TargetName() > x.TargetName()", "proved"),
+    # ---- third batch
+    ("ExeName-S1 hashes not sorted", "S", ["ExeName"], "mage/main.go", EX1, "", "differs"),
+    ("ExeName-S2 template hash sorted in with the file hashes (the tree before db4aa20)", "S", ["ExeName"], "mage/main.go", EX1, "", "differs", [(EX2, EX2 + "\tsort.Strings(hashes)\n")]),
+    ("ExeName-S3 the go command's name instead of its version in the name", "S", ["ExeName"], "mage/main.go", EX3, EX3.replace(" + ver)", " + goCmd)") + "\t_ = ver\n", "differs"),
+    ("ExeName-S4 rebuild key not part of the name", "S", ["ExeName"], "mage/main.go", EX3, EX3.replace(" + magicRebuildKey", ""), "differs"),
+    ("ExeName-S5 .exe on every platform", "S", ["ExeName"], "mage/main.go", 'if runtime.GOOS == "windows" {\n\t\tout += ".exe"', 'if runtime.GOOS != "" {\n\t\tout += ".exe"', "differs"),
+    ("ExeName-S6 unreadable file skipped", "S", ["ExeName"], "mage/main.go", "\t\th, err := hashFile(s)\n\t\tif err != nil {\n\t\t\treturn \"\", err\n\t\t}\n", "\t\th, err := hashFile(s)\n\t\tif err != nil {\n\t\t\tcontinue\n\t\t}\n", "differs"),
+    ("ExeName-H1 template hash in a local, name built with +", "H", ["ExeName"], "mage/main.go", EX2, "\ttplHash := fmt.Sprintf(\"%x\", sha1.Sum([]byte(mageMainfileTplString)))\n\thashes = append(hashes, tplHash)\n", "proved"),
+    ("ExeName-H2 suffix chosen first", "H", ["ExeName"], "mage/main.go", "\tout := filepath.Join(cacheDir, filename)\n\tif runtime.GOOS == \"windows\" {\n\t\tout += \".exe\"\n\t}\n\treturn out, nil", "\tsuffix := \"\"\n\tif runtime.GOOS == \"windows\" {\n\t\tsuffix = \".exe\"\n\t}\n\treturn filepath.Join(cacheDir, filename) + suffix, nil", "proved"),
+    ("sh.ExitStatus-S1 exec.ExitError reported as 1", "S", ["sh.ExitStatus"], "sh/cmd.go", SHX, "\tif e, ok := err.(exitStatus); ok {\n\t\treturn e.ExitStatus()\n\t}\n\treturn 1\n", "differs"),
+    ("sh.ExitStatus-S2 own ExitStatus() ignored", "S", ["sh.ExitStatus"], "sh/cmd.go", SHX, SHX.replace("\tif e, ok := err.(exitStatus); ok {\n\t\treturn e.ExitStatus()\n\t}\n", ""), "differs"),
+    ("sh.ExitStatus-S3 unknown errors give 0", "S", ["sh.ExitStatus"], "sh/cmd.go", SHX, SHX.replace("\treturn 1\n", "\treturn 0\n"), "differs"),
+    ("sh.CmdRan-S1 any ExitError counts as ran", "S", ["sh.ExitStatus"], "sh/cmd.go", CR, "\t_, ok := err.(*exec.ExitError)\n\tif ok {\n\t\treturn true\n\t}\n\treturn false\n", "differs"),
+    ("sh.CmdRan-S2 nil error reported as not ran", "S", ["sh.ExitStatus"], "sh/cmd.go", "func CmdRan(err error) bool {\n\tif err == nil {\n\t\treturn true", "func CmdRan(err error) bool {\n\tif err == nil {\n\t\treturn false", "differs"),
+    ("sh.ExitStatus-H1 order of the two assertions swapped, early returns", "H", ["sh.ExitStatus"], "sh/cmd.go", SHX, "\tif ee, isExit := err.(*exec.ExitError); isExit {\n\t\tws, has := ee.Sys().(exitStatus)\n\t\tif !has {\n\t\t\treturn 1\n\t\t}\n\t\treturn ws.ExitStatus()\n\t}\n\tif es, has := err.(exitStatus); has {\n\t\treturn es.ExitStatus()\n\t}\n\treturn 1\n", "proved"),
+    ("sh.CmdRan-H1 if with init", "H", ["sh.ExitStatus"], "sh/cmd.go", CR, "\tif ee, ok := err.(*exec.ExitError); ok {\n\t\treturn ee.Exited()\n\t}\n\treturn false\n", "proved"),
+    ("sh.ExitStatus-H2 errors.As (outside the subset)", "H", ["sh.ExitStatus"], "sh/cmd.go", SHX, "\tvar es exitStatus\n\tif errors.As(err, &es) {\n\t\treturn es.ExitStatus()\n\t}\n\treturn 1\n", "untranslatable", [('\t"bytes"\n', '\t"bytes"\n\t"errors"\n')]),
+    ("mg.ExitStatus-S1 plain errors give 0", "S", ["mg.ExitStatus"], "mg/errors.go", MGX, MGX.replace("return 1", "return 0"), "differs"),
+    ("mg.ExitStatus-S2 status clamped to 1", "S", ["mg.ExitStatus"], "mg/errors.go", MGX, MGX.replace("\treturn exit.ExitStatus()\n", "\tif exit.ExitStatus() != 0 {\n\t\treturn 1\n\t}\n\treturn 0\n"), "differs"),
+    ("mg.ExitStatus-H1 positive form", "H", ["mg.ExitStatus"], "mg/errors.go", MGX, "\tif st, is := err.(exitStatus); is {\n\t\treturn st.ExitStatus()\n\t}\n\treturn 1\n", "proved"),
+    ("sanitizeSynopsis-S1 exact comparison of the first word", "S", ["sanitizeSynopsis"], "parse/parse.go", SY, SY.replace("strings.EqualFold(f.Name, syns[0])", "f.Name == syns[0]"), "differs"),
+    ("sanitizeSynopsis-S2 two words dropped", "S", ["sanitizeSynopsis"], "parse/parse.go", SY, SY.replace("syns[1:]", "syns[2:]").replace("strings.EqualFold(f.Name, syns[0])", "len(syns) > 2 && strings.EqualFold(f.Name, syns[0])"), "differs"),
+    ("sanitizeSynopsis-H1 locals", "H", ["sanitizeSynopsis"], "parse/parse.go", SY, "\twords := strings.Split(synopsis, \" \")\n\tfirst := words[0]\n\tif strings.EqualFold(f.Name, first) {\n\t\trest := words[1:]\n\t\treturn strings.Join(rest, \" \")\n\t}\n", "proved"),
 ]
 
 
